@@ -1,5 +1,5 @@
 (* C02 -- The subset is parsed exactly as JavaScript parses it.  Property theorems only. *)
-Require Import Base Token Tree Parser Grammar GrammarProofs.
+Require Import Base Token Tree Parser Grammar RelexSpec GrammarProofs LayoutProofs.
 Require Import Gen.Tables.
 
 (* Parser completeness w.r.t. the ECMAScript grammar of the subset (Grammar.v): whenever a
@@ -22,3 +22,23 @@ Theorem C02_unambiguous : forall p1 p2 toks,
   m_program p2 toks = true -> wf_program p2 = true -> p1 = p2.
 Proof. exact grammar_unambiguous. Qed.
 Print Assumptions C02_unambiguous.
+
+(* LAYOUT: the tree is a function of the token sequence seen through type, literal and
+   after-newline flag: positions, comments, blank lines never reach it. *)
+
+(* what the parser can see of a token *)
+Definition core (t : token) : Z * str * bool := (t_type t, t_lit t, t_nl t).
+
+(* For EVERY input (valid or malformed), every mode, interceptors and registered operators:
+   two token lists with the same cores - i.e. the same lexemes in any two layouts that put
+   line breaks between the same tokens, with any comments - give trees of the same shape,
+   the same error kinds in the same order and the same error flag. *)
+Theorem C02_layout_independent : forall cfg toks1 toks2 r1,
+  map core toks1 = map core toks2 ->
+  parse_tokens cfg toks1 = Some r1 ->
+  exists r2, parse_tokens cfg toks2 = Some r2 /\
+             shape_program (pr_program r2) = shape_program (pr_program r1) /\
+             map (fun e => (e_kind e, e_arg e)) (pr_errors r2) = map (fun e => (e_kind e, e_arg e)) (pr_errors r1) /\
+             pr_err_returned r2 = pr_err_returned r1.
+Proof. exact parse_layout_independent. Qed.
+Print Assumptions C02_layout_independent.
